@@ -411,7 +411,8 @@ def eig(data, meta=None, sizes=(1, 1), **kwargs):
             raise ValueError("Biorthonormalization of left/right eigenvector pairs failed.") from e
 
         tol= 1.0e-12 if data.is_complex() else 1.0e-14
-        if any( torch.abs(torch.sum(V.T * U, axis=0) - 1) > tol ):
+        VU = V.T * U  # rounding of the overlap scales with the magnitude of the summed terms
+        if any( torch.abs(torch.sum(VU, axis=0) - 1) > tol * torch.sum(torch.abs(VU), axis=0) ):
             raise ValueError("Biorthonormalization of left/right eigenvector pairs failed.")
 
         s_order= eigs_which(S, which=kwargs.get('which', 'LM'))
